@@ -381,15 +381,17 @@ def rule_single_writer(ctx):
                 sel = ctx.T(g).local(0)
     cursor = None
     oks = False
-    if sel is not None and sel[0] == "call" and sel[1] == BS + "::block":
-        mx = [x for x in subterms(sel) if x[0] == "call" and x[1] == "std::cmp::Ord::max"]
-        if mx:
-            ops = list(mx[0][2])
-            per = [o for o in ops if chain(o)[1][-2:] == ["persisted", "next()"]]
-            oth = [o for o in ops if o not in per]
-            if len(per) == 1 and len(oth) == 1 and oth[0][0] == "upvar":
-                cursor = oth[0][1]
-                oks = True
+    if sel is not None and sel[0] == "call" and sel[1] == BS + "::block" and len(sel[2]) >= 2:
+        def cls(x):
+            if chain(x)[1][-2:] == ["persisted", "next()"]:
+                return "persisted"
+            if x[0] == "upvar":
+                return "cursor"
+            return None
+        kind, ops = common.select_extreme(ctx, g, sel[2][1], cls)
+        if kind == "max" and set(ops) == {"persisted", "cursor"}:
+            cursor = ops["cursor"][1]
+            oks = True
     ctx.ob(R, "block handed to storage", okb and oks, "block = wait_for_some(|s| s.block(max(<cursor>, s.persisted.next())))" if (okb and oks) else
            "the block handed to queue_next_block is %s selected by %s" % (show(blk)[:80], show(sel)[:120] if sel else None), f.loc(c["t"].get("ln")))
     okn = False
